@@ -52,7 +52,7 @@ def jobs(tier):
     # cells, cells of nested lists) does not survive it, the run completes, and the witness satisfies the system
     from . import cat_c09
     for e in cat_c09.build(8, tier):
-        if e.tags & {"if_only", "nestedop", "matrix", "lazy", "nested"}:
+        if "c09out" not in e.tags and e.tags & {"if_only", "nestedop", "matrix", "lazy", "nested", "elif2", "elif_cmp", "lazy_cmp_branches"}:
             base = dict(entry=e.name, backend="snarkjs", tier=tier, pid=PID, catalogue="checks.cat_c09", weight=2)
             cfg = dict(n=8, r=2, guard=None, bound=None)
             js.append(dict(base, name="%s/region-value" % e.name, analysis="obs", cfg=dict(cfg)))
@@ -187,7 +187,7 @@ def run_job(env, spec):
                     job.inconclusive("path %d soundness under true guard: unknown" % pi)
         job.sample(dict(path=pi, outcome=outcome_class(t), path_condition=[str(z3.simplify(c))[:100] for c in t.path.pc[:3]]))
     # ---------------- assertions under a true guard: rejected => unsatisfiable, on the guarded ignore_errors structure
-    if "assert" in entry.tags and "decl" not in entry.tags and job.cfg["guard"] == "sym":
+    if "assert" in entry.tags and ("decl" not in entry.tags or "use" in entry.tags) and job.cfg["guard"] == "sym":
         E.ENG.name_prefix = "I_"
         jobI = Job(spec.get("pid", PID), env, spec, entry, spec.get("catalogue", "checks.catalogue"))
         jobI.cfg.update(want_ref=False, ignore=True)
@@ -217,7 +217,8 @@ def run_job(env, spec):
                         continue
                     inputs = H.model_inputs(m, valsG)
                     job.finding("c03_rejected_provable", "guard=1: operands %s rejected when unguarded but provable under the true guard" % inputs,
-                                dict(kind="c03_rejected_provable", inputs=inputs, adversarial=adv, struct_ignore=True,
+                                dict(kind="c03_rejected_provable", inputs=inputs, adversarial=adv,
+                                     struct_ignore=("decl" not in entry.tags),      # boolean constructors raise under ignore_errors too
                                      honest_cfg=dict(n=job.cfg["n"], r=2, guard=None)), facts=fs, goal=[], model=m)
                 elif st == "unknown":
                     job.inconclusive("guard=1 rejected=>unsat: unknown")
